@@ -1,5 +1,12 @@
 package keepclient
 
+import (
+	"bytes"
+	"io"
+
+	"git.arvados.org/arvados.git/sdk/go/arvadosclient"
+)
+
 // C12: rendezvous probe order.  Reference (keep-clients doc): services sorted by descending
 // md5hex(hash + last 15 chars of the 27-char uuid).
 
@@ -133,6 +140,51 @@ func GosymH_C12_hints() {
 	for i := range want {
 		if i < len(got) {
 			gosym_Assert(got[i] == want[i], "hints-first-then-rendezvous-order")
+		}
+	}
+	gosym_Reach("done")
+}
+
+// GosymH_C12_putorder: writes probe the writable services in the same rendezvous order.  One replica wanted,
+// every upload refused (403, not retried): putReplicas walks the whole list, one service at a time, so the
+// sequence of upload attempts is its probe order; it must be the writable services by descending reference
+// weight, and the read-only service is never tried.  (Uploads are answered by the C11 stub.)
+func GosymH_C12_putorder() {
+	n := gosym_Param("services", 3)
+	hash := "acbd18db4cc2f85cedef654fccc4a4d8"
+	local, writable := map[string]string{}, map[string]string{}
+	var hosts, weights []string
+	for i := 0; i <= n; i++ { // the last one is read-only
+		tail := gosym_String("uuid"+string(rune('0'+i)), 15, "alnum")
+		u := "zzzzz-bi6l4-" + tail
+		for k := range local {
+			gosym_Assume(k != u)
+		}
+		local[u] = "http://keep" + string(rune('0'+i))
+		if i < n {
+			writable[u] = local[u]
+			hosts = append(hosts, local[u])
+			weights = append(weights, gosym_MD5Hex([]byte(hash+tail)))
+		}
+	}
+	for i := range weights {
+		for j := 0; j < i; j++ {
+			gosym_Assume(weights[i] != weights[j])
+		}
+	}
+	kc := &KeepClient{Arvados: &arvadosclient.ArvadosClient{ApiToken: "tok"}, disableDiscovery: true, localRoots: local, writableLocalRoots: writable,
+		gatewayRoots: map[string]string{}, Want_replicas: 1, Retries: 0, replicasPerService: 1, RequestID: "req-x"}
+	gosymUps, gosymAttempts = nil, map[string]int{}
+	gosymForcedOutcome = 2 // 403
+	_, _, err := kc.putReplicas(hash, func() io.Reader { return bytes.NewReader([]byte("foo")) }, 3)
+	gosym_Quiesce()
+	gosym_Assert(err != nil, "all-refused-means-failure")
+	gosym_Assert(len(gosymUps) == n, "every-writable-service-tried-exactly-once")
+	for k := 0; k+1 < len(gosymUps); k++ {
+		a, b := gosymIndexOf(hosts, gosymUps[k].host), gosymIndexOf(hosts, gosymUps[k+1].host)
+		gosym_Assert(a >= 0 && b >= 0, "only-writable-services-are-tried")
+		if a >= 0 && b >= 0 {
+			gosym_Assert(weights[a] > weights[b], "write-probe-order-is-descending-reference-weight")
 		}
 	}
 	gosym_Reach("done")
